@@ -2,6 +2,7 @@ package eng
 
 import (
 	"fmt"
+	"runtime/debug"
 	"time"
 	"unsafe"
 
@@ -14,6 +15,7 @@ import (
 type Result struct {
 	Panicked bool
 	PanicVal any
+	Stack    string
 }
 
 // Exec executes op against the real world, under recover, with callbacks monitored.
@@ -34,6 +36,9 @@ func (d *Drv) Exec(op *Op, x *Exp, opIdx int) (res Result) {
 			if r := recover(); r != nil {
 				res.Panicked = true
 				res.PanicVal = r
+				if !x.Panic {
+					res.Stack = string(debug.Stack())
+				}
 			}
 		}()
 		d.exec(op, x)
